@@ -26,22 +26,23 @@ theorem npy_roundtrip (shape bits bytes : List Nat) (hwf : WfSpectrum shape bits
 /-- The npy writer succeeds whenever the header dictionary fits the v1.0 length field. -/
 theorem writeNpy_ok (shape bits : List Nat) (h : (npyDict shape).length + 64 < 65536) :
     ∃ bytes, writeNpy shape bits = .ok bytes := by
-  sorry
+  obtain ⟨hd, hh⟩ := npyHeader_isSome shape h
+  exact ⟨hd ++ (bits.map (leBytes 8)).flatten, by simp only [writeNpy, hh]⟩
 
 /-- text_header_roundtrip. -/
 theorem text_header_roundtrip (shape : List Nat) (hne : shape ≠ []) (hb : ∀ v ∈ shape, v < 2 ^ 64) :
     parseTextHeader (textHeader shape) = some shape := by
-  sorry
+  exact parseTextHeader_textHeader shape hne hb
 
 /-- A printed value never contains whitespace and is never empty, so … -/
 theorem fmtFixed_token (b p : Nat) : fmtFixed b p ≠ [] ∧ ∀ c ∈ fmtFixed b p, isAsciiWs c = false := by
-  sorry
+  exact fmtFixed_tok b p
 
 /-- text_shape_tokens: … the reader splits the value line back into exactly one token per entry, in order. -/
 theorem text_shape_tokens (shape bits : List Nat) (p : Nat) :
     ∃ line : List Char, writeText shape bits p = textHeader shape ++ ['\n'] ++ line ++ ['\n'] ∧
       splitWs (line ++ ['\n']) = bits.map (fun b => fmtFixed b p) := by
-  sorry
+  exact writeText_tokens shape bits p (fun b => fmtFixed_tok b p)
 
 /-- The number `fmtRatFixed` prints: `m / 10^p` with `m` the half-even rounding of `q·10^p`. -/
 def roundedScaled (q : Rat) (p : Nat) : Nat :=
@@ -73,7 +74,15 @@ theorem text_value_roundtrip (b p : Nat) (q : Rat) (hb : b < 2 ^ 64) (hf : f64Of
 theorem text_special_roundtrip (b p : Nat) :
     (f64OfBits b = .nan → ∃ b', parseF64 (fmtFixed b p) = some b' ∧ f64OfBits b' = .nan) ∧
     (∀ s, f64OfBits b = .inf s → ∃ b', parseF64 (fmtFixed b p) = some b' ∧ f64OfBits b' = .inf s) := by
-  sorry
+  constructor
+  · intro h
+    rw [fmtFixed_nan b p h]
+    exact ⟨_, parseF64_NaN, f64OfBits_qnan⟩
+  · intro s h
+    rw [fmtFixed_inf b p s h]
+    cases s
+    · exact ⟨_, parseF64_inf, f64OfBits_pinf⟩
+    · exact ⟨_, parseF64_neg_inf, f64OfBits_ninf⟩
 
 /-- The literal reading "the re-read double is within half a unit" is unattainable by any correct reader:
     at x = 0.75, p = 1 the printed "0.8" is not a double and the nearest double exceeds the bound. -/
@@ -82,16 +91,20 @@ theorem literal_bound_witness :
     (match f64OfBits 0x3fe999999999999a with
      | .fin y => decide (y - 3 / 4 > 1 / 20)
      | _ => false) = true := by
-  sorry
+  decide +kernel
 
 /-- detect_exclusive: what either writer emits is detected as exactly that format. -/
 theorem detect_npy (shape bits bytes : List Nat) (hw : writeNpy shape bits = .ok bytes) :
     detectFormat bytes = some .npy := by
-  sorry
+  obtain ⟨hd, hh, rfl⟩ := writeNpy_eq_ok shape bits bytes hw
+  obtain ⟨t, rfl⟩ := npyHeader_magic shape hd hh
+  rw [List.append_assoc]; exact detectFormat_npyMagic _
 
 theorem detect_text (shape bits : List Nat) (p : Nat) :
     detectFormat (asciiBytes (writeText shape bits p)) = some .text := by
-  sorry
+  unfold writeText textHeader
+  simp only [List.append_assoc]
+  exact detectFormat_text _
 
 /-- The tool reads what it writes (npy): auto-detection + reader return the spectrum written. -/
 theorem reads_what_it_writes_npy (shape bits bytes : List Nat) (hwf : WfSpectrum shape bits)
